@@ -129,86 +129,165 @@ func runC36(c *core.Ctx) {
 
 	if fn := anchorM(c, "vm/systemSmartContracts", "delegation", "computeAndUpdateRewards"); fn != nil {
 		c.Analysed(fname(fn))
-		var owner []*ssa.Call
-		core.Instrs(fn, func(in ssa.Instruction) {
-			if call, ok := in.(*ssa.Call); ok && call.Call.StaticCallee() != nil {
-				if nm := call.Call.StaticCallee().Name(); nm == "GetIntTrimmedPercentageOfValue" || nm == "GetApproximatePercentageOfValue" {
-					owner = append(owner, call)
-				}
-			}
-		})
-		// the delegators' share: the object that is scaled by stake / TotalActive. On EVERY path it must be
-		// the fresh difference Sub(total, ownerShare) of the total the owner's percentage was taken from.
-		okSub, why := false, "no share scaled by the delegator's stake over TotalActive was found"
 		isBig := func(call *ssa.Call, name string) bool {
 			g := call.Call.StaticCallee()
 			return g != nil && g.Pkg != nil && g.Pkg.Pkg.Path() == "math/big" && g.Name() == name
 		}
-		var checkOrigin func(v ssa.Value, depth int) (bool, string)
-		checkOrigin = func(v ssa.Value, depth int) (bool, string) {
-			if depth > 8 {
-				return false, "the origin of the delegators' share could not be followed"
+		isPct := func(call *ssa.Call) bool {
+			if call.Call.StaticCallee() == nil {
+				return false
 			}
-			switch x := v.(type) {
-			case *ssa.Phi:
-				for _, e := range x.Edges {
-					if ok, w := checkOrigin(e, depth+1); !ok {
-						return false, w
+			nm := call.Call.StaticCallee().Name()
+			return nm == "GetIntTrimmedPercentageOfValue" || nm == "GetApproximatePercentageOfValue"
+		}
+		// the scope: the function, and the methods of the contract it hands the epoch's data to (the per-epoch
+		// arithmetic may be a helper of its own)
+		scope := []*ssa.Function{fn}
+		core.Instrs(fn, func(in ssa.Instruction) {
+			if cc := core.CallOf(in); cc != nil && cc.StaticCallee() != nil && cc.StaticCallee().Blocks != nil && cc.StaticCallee().Pkg == fn.Pkg && cc.StaticCallee() != fn {
+				for _, g := range scope {
+					if g == cc.StaticCallee() {
+						return
 					}
 				}
-				return len(x.Edges) > 0, ""
-			case *ssa.Call:
-				if isBig(x, "Mul") || isBig(x, "Div") || isBig(x, "Quo") || isBig(x, "Set") {
-					return checkOrigin(x.Call.Args[0], depth+1)
+				scope = append(scope, cc.StaticCallee())
+			}
+		})
+		// an owner's share: a percentage call, or a helper every answer of which is one. total: the record and
+		// field the percentage is taken of (through the helper: of the argument that stands for its parameter)
+		type ownerShare struct {
+			call  *ssa.Call
+			base  ssa.Value
+			field *types.Var
+		}
+		ownersIn := func(g *ssa.Function) (out []ownerShare) {
+			core.Instrs(g, func(in ssa.Instruction) {
+				call, ok := in.(*ssa.Call)
+				if !ok || call.Call.StaticCallee() == nil {
+					return
 				}
-				if isBig(x, "Sub") && len(x.Call.Args) == 3 {
-					fromOwner := false
-					for y := range core.BackwardReachPure(x.Call.Args[2]) {
-						for _, o := range owner {
-							if y == ssa.Value(o) {
-								fromOwner = true
+				if isPct(call) {
+					base, f := core.FieldLoad(call.Call.Args[0])
+					out = append(out, ownerShare{call, base, f})
+					return
+				}
+				h := call.Call.StaticCallee()
+				if h.Blocks == nil || h.Pkg != g.Pkg {
+					return
+				}
+				rets := core.Returns(h)
+				if len(rets) == 0 {
+					return
+				}
+				var shares []ownerShare
+				for _, r := range rets {
+					pc, isCall := core.RetOperand(r, 0).(*ssa.Call)
+					if !isCall || !isPct(pc) {
+						return
+					}
+					base, f := core.FieldLoad(pc.Call.Args[0])
+					var arg ssa.Value
+					for i, p := range h.Params {
+						if ssa.Value(p) == base && i < len(call.Call.Args) {
+							arg = call.Call.Args[i]
+						}
+					}
+					shares = append(shares, ownerShare{call, arg, f})
+				}
+				c.Analysed(fname(h))
+				out = append(out, shares...)
+			})
+			return out
+		}
+		// the delegators' share: the object that is scaled by stake / TotalActive. On EVERY path it must be
+		// the fresh difference Sub(total, ownerShare) of the total the owner's percentage was taken from.
+		okSub, why := false, "no share scaled by the delegator's stake over TotalActive was found"
+		nOwner := 0
+		for _, g := range scope {
+			owner := ownersIn(g)
+			var checkOrigin func(v ssa.Value, depth int) (bool, string)
+			checkOrigin = func(v ssa.Value, depth int) (bool, string) {
+				if depth > 8 {
+					return false, "the origin of the delegators' share could not be followed"
+				}
+				switch x := v.(type) {
+				case *ssa.Phi:
+					for _, e := range x.Edges {
+						if ok, w := checkOrigin(e, depth+1); !ok {
+							return false, w
+						}
+					}
+					return len(x.Edges) > 0, ""
+				case *ssa.Call:
+					if isBig(x, "Mul") || isBig(x, "Div") || isBig(x, "Quo") || isBig(x, "Set") {
+						// the value is that of the operand; with an in-place receiver the two are one object
+						if freshBig(x.Call.Args[0]) && len(x.Call.Args) > 1 {
+							if ok, w := checkOrigin(x.Call.Args[1], depth+1); ok || !isBig(x, "Mul") || len(x.Call.Args) < 3 {
+								return ok, w
+							}
+							return checkOrigin(x.Call.Args[2], depth+1)
+						}
+						return checkOrigin(x.Call.Args[0], depth+1)
+					}
+					if isBig(x, "Sub") && len(x.Call.Args) == 3 {
+						fromOwner := false
+						for y := range core.BackwardReachPure(x.Call.Args[2]) {
+							for _, o := range owner {
+								if y == ssa.Value(o.call) {
+									fromOwner = true
+								}
 							}
 						}
-					}
-					if !fromOwner {
-						return false, "the share is a difference, but not total minus the owner's share"
-					}
-					for _, o := range owner {
-						if core.ExprKey(o.Call.Args[0]) != core.ExprKey(x.Call.Args[1]) {
-							return false, "the complement is subtracted from a different amount than the one the owner's percentage was taken from"
+						if !fromOwner {
+							return false, "the share is a difference, but not total minus the owner's share"
 						}
+						mb, mf := core.FieldLoad(x.Call.Args[1])
+						for _, o := range owner {
+							if o.field == nil || mf != o.field || mb != o.base {
+								return false, "the complement is subtracted from a different amount than the one the owner's percentage was taken from"
+							}
+						}
+						if !freshBig(x.Call.Args[0]) {
+							return false, "the difference overwrites a stored amount instead of a fresh object"
+						}
+						return true, ""
 					}
-					if !freshBig(x.Call.Args[0]) {
-						return false, "the difference overwrites a stored amount instead of a fresh object"
-					}
-					return true, ""
+					return false, "on some path the delegators' share is not Sub(total, ownerShare) but " + core.ExprKey(x) + " (a second, independently rounded percentage does not add up with the first)"
 				}
-				return false, "on some path the delegators' share is not Sub(total, ownerShare) but " + core.ExprKey(x) + " (a second, independently rounded percentage does not add up with the first)"
+				return false, "on some path the delegators' share is not Sub(total, ownerShare)"
 			}
-			return false, "on some path the delegators' share is not Sub(total, ownerShare)"
+			core.Instrs(g, func(in ssa.Instruction) {
+				call, ok := in.(*ssa.Call)
+				if !ok || !(isBig(call, "Div") || isBig(call, "Quo")) || len(call.Call.Args) != 3 {
+					return
+				}
+				byTotalActive := false
+				for x := range core.BackwardReachPure(call.Call.Args[2]) {
+					if _, f := core.FieldLoad(x); f != nil && f.Name() == "TotalActive" {
+						byTotalActive = true
+					}
+				}
+				if !byTotalActive {
+					return
+				}
+				if g != fn {
+					c.Analysed(fname(g))
+				}
+				nOwner = len(owner)
+				// the dividend: the receiver when the division is in place, the operand when the receiver is fresh
+				if freshBig(call.Call.Args[0]) {
+					okSub, why = checkOrigin(call.Call.Args[1], 0)
+				} else {
+					okSub, why = checkOrigin(call.Call.Args[0], 0)
+				}
+			})
 		}
-		core.Instrs(fn, func(in ssa.Instruction) {
-			call, ok := in.(*ssa.Call)
-			if !ok || !(isBig(call, "Div") || isBig(call, "Quo")) || len(call.Call.Args) != 3 {
-				return
-			}
-			byTotalActive := false
-			for x := range core.BackwardReachPure(call.Call.Args[2]) {
-				if _, f := core.FieldLoad(x); f != nil && f.Name() == "TotalActive" {
-					byTotalActive = true
-				}
-			}
-			if !byTotalActive {
-				return
-			}
-			okSub, why = checkOrigin(call.Call.Args[0], 0)
-		})
-		c.Check(okSub && len(owner) >= 1, "C36/complement-by-subtraction", "delegation.computeAndUpdateRewards", fn.Pos(),
+		c.Check(okSub && nOwner >= 1, "C36/complement-by-subtraction", "delegation.computeAndUpdateRewards", fn.Pos(),
 			"delegators' share = Sub(fresh, total, ownerShare) of the same total the owner's percentage was taken from",
 			why+": owner share and delegators' share no longer add up to the rewards to distribute")
 		// no in-place operation overwrites the stored per-epoch reward data
 		bad := ""
-		core.Instrs(fn, func(in ssa.Instruction) {
+		scanReadOnly := func(in ssa.Instruction) {
 			cc := core.CallOf(in)
 			if cc == nil || cc.StaticCallee() == nil || cc.StaticCallee().Pkg == nil || cc.StaticCallee().Pkg.Pkg.Path() != "math/big" || cc.StaticCallee().Signature.Recv() == nil || len(cc.Args) == 0 {
 				return
@@ -225,7 +304,10 @@ func runC36(c *core.Ctx) {
 					}
 				}
 			}
-		})
+		}
+		for _, g := range scope {
+			core.Instrs(g, scanReadOnly)
+		}
 		c.Check(bad == "", "C36/complement-by-subtraction", "delegation.computeAndUpdateRewards/epoch-data-read-only", fn.Pos(),
 			"no in-place operation has RewardsToDistribute or TotalActive of the epoch's reward data as its receiver",
 			"an in-place operation overwrites the epoch's reward data ("+bad+"): the next delegator's share is computed from a changed total")
